@@ -1,8 +1,8 @@
 SPECIFICATION Spec
 CONSTANTS
  MaxLen = 4
- EMin <- EMinDef
- EMax = 8
- PMax = 6
-INVARIANTS Reparses HalfUnit Idempotent KeepsDigits Stripped Style Monotone
+ NegLen = 2
+ Exps <- ExpsFull
+ Precs <- PrecsFull
+INVARIANT Lemmas
 CHECK_DEADLOCK FALSE
